@@ -4,6 +4,7 @@ import T4V.Sexp
 import T4V.Model.Post
 import T4V.Model.PotTransform
 import T4V.Model.GeomComp
+import T4V.Model.Composition
 /-! Wire encoding of Layer-B model inputs/outputs (S-expressions). -/
 namespace T4V
 
@@ -189,6 +190,24 @@ def runGeomComp (s : Sexp) : String :=
     | none => "ok error"
     | some gs => "ok " ++ " ".intercalate (gs.map fun (n, ids) =>
         s!"(g {hex n} {ids.length} {" ".intercalate (ids.map toString)})")
+  | _, _ => "err bad-request"
+
+/-- `(comp (cards (m K tok…)…) (cells (c live mat dens)…))` (tokens and literals in hex) → the lines of the COMPOSITION
+block as words, or the class of the exception -/
+def runCompModel (s : Sexp) : String :=
+  let cards : Option (List (Nat × List (List Char))) := (s.field? "cards").bind fun cs => cs.args.mapM fun c => match c with
+      | .list (.atom "m" :: .atom k :: toks) => do
+          pure (← k.toNat?, ← toks.mapM fun t => t.atom? >>= unhex |>.map String.toList)
+      | _ => none
+  let cells : Option (List CM.CCell) := (s.field? "cells").bind fun cs => cs.args.mapM fun c => match c with
+      | .list [.atom "c", .atom l, .atom m, .atom d] => do
+          pure ({ live := l == "1", mat := ← m.toNat?, density := (← unhex d).toList } : CM.CCell)
+      | _ => none
+  match cards, cells with
+  | some cards, some cells =>
+    match CM.run cards cells with
+    | .error e => "ok error " ++ e.name
+    | .ok ls => "ok " ++ " ".intercalate (ls.map fun l => if l.isEmpty then "-" else hex l)
   | _, _ => "err bad-request"
 
 /-- `(inline (max X) (cells (cell id univ geom)…))` → every cell's geometry after `inline_cells` -/
